@@ -35,6 +35,7 @@ class Switchboard:
     self.log: list[tuple] = []
     self.dead: set[str] = set()
     self.on_call: Callable | None = None
+    self.on_done: Callable | None = None     # (address, call index, method, outcome, result or exception)
     self.hold: dict[tuple[str, int], threading.Event] = {}
 
   def reset(self):
@@ -46,6 +47,7 @@ class Switchboard:
       self.dead.clear()
       self.hold.clear()
       self.on_call = None
+      self.on_done = None
 
   def outcome(self, address, method):
     with self.lock:
@@ -130,13 +132,21 @@ class Client:
     outcome = BOARD.outcome(self.address, method)
     with BOARD.lock:
       server = BOARD.servers.get(self.address)
+
+    def done(payload):
+      # reported before the future resolves, so that the record precedes anything the caller does with the answer
+      if BOARD.on_done is not None and method != 'heartbeat':
+        BOARD.on_done(self.address, method, outcome, payload)
+
     if outcome in ('deadline',):
+      done(DeadlineExceeded())
       fut.set_exception(DeadlineExceeded())
       return fut
     if outcome in ('dead', 'die') or server is None or not server.has_started:
       if outcome == 'die':
         with BOARD.lock:
           BOARD.dead.add(self.address)
+        done('die')
       if self.call_timeout:
         fut.set_exception(DeadlineExceeded())
       # without a timeout the call never completes (pending forever), like a lost peer
@@ -152,10 +162,13 @@ class Client:
           raise outcome[1]
         res = handler(*args, **kwargs)
         if outcome == 'response_lost':
+          done(DeadlineExceeded())
           fut.set_exception(DeadlineExceeded())
         else:
+          done(res)
           fut.set_result(res)
       except BaseException as e:  # pylint: disable=broad-exception-caught
+        done(e)
         fut.set_exception(e)
 
     BOARD.pool.submit(run)
